@@ -1,11 +1,10 @@
-(* BulkProofs.v — proofs about the HandleBulkBody model (C15).
+(* BulkProofs.v — proofs about the HandleBulkBody model (C15), code after the fix
+   "bulk response accounting".
 
-   Plan: (1) the ReadLine loop is a fold of a per-action step over the list of
-   actions it itemises ([iacts], its own parse of the segments);
-   (2) [iacts b] is the grammar's action list of the body, minus the last action
-   when that action has no document line (the loop breaks before counting it);
-   (3) closed forms of the fold: item statuses, accepted documents, flags;
-   (4) the property theorems. *)
+   Plan: (1) the ReadLine loop is a fold of a per-action step over the grammar's
+   action list of the body, [actions (body_lines b)] (up to processedCount);
+   (2) closed forms of the fold: item statuses, accepted documents, flags;
+   (3) the property theorems; (4) witnesses against the pre-fix code. *)
 From Coq Require Import Lia.
 From Coq Require Import ZifyN ZifyNat ZifyBool.
 From SigM Require Import Base Bulk.
@@ -16,28 +15,15 @@ Open Scope N_scope.
 (* ---------- (1) loop = fold of a per-action step ---------- *)
 
 Definition step (s : st) (a : action) : st :=
+  let s0 := set_oversize false s in
   emit (match a with
         | AWrite l (Some d) =>
           if l_len d <? MAX_RECORD_SIZE then
-            if get_new_ple d then push_ple (l_idx l, l_id d) (set_success true s)
-            else set_success false s
-          else set_oversize true (set_success false s)
-        | _ => set_success false s
+            if get_new_ple d then push_ple (l_idx l, l_id d) (set_success true s0)
+            else set_success false s0
+          else set_oversize true (set_success false s0)
+        | _ => set_success false s0
         end).
-
-Fixpoint iacts (b : list line) : list action :=
-  match b with
-  | [] => []
-  | a :: rem =>
-    if buf_empty rem then [] else
-    match extract_action a with
-    | INDEX | CREATE =>
-      match rem with [] => [] | d :: rem' => AWrite a (Some d) :: iacts rem' end
-    | UPDATE =>
-      match rem with [] => [] | d :: rem' => AUpdate a (Some d) :: iacts rem' end
-    | DELETE => AOther a :: iacts rem
-    end
-  end.
 
 Lemma setp_id s : set_processed (processed s) s = s.
 Proof. destruct s; reflexivity. Qed.
@@ -63,7 +49,7 @@ Proof.
 Qed.
 
 Lemma emit_write_doc a d s : exists q,
-  emit (write_doc (l_idx a) d s) = set_processed q (step s (AWrite a (Some d))).
+  emit (write_doc (l_idx a) d (set_oversize false s)) = set_processed q (step s (AWrite a (Some d))).
 Proof.
   unfold step, write_doc.
   destruct (l_len d <? MAX_RECORD_SIZE).
@@ -72,72 +58,15 @@ Proof.
   - exists (processed s). destruct s; reflexivity.
 Qed.
 
-Lemma emit_missing_doc a d s : l_len d =? 0 = true ->
-  emit (set_success false s) = step s (AWrite a (Some d)).
+Lemma buf_empty_lines r : buf_empty r = true -> body_lines r = [].
 Proof.
-  intros H. unfold step, get_new_ple. rewrite H.
-  apply N.eqb_eq in H. rewrite H. reflexivity.
+  destruct r as [|e [|x r]]; cbn; intros H; auto; [|discriminate].
+  rewrite H. reflexivity.
 Qed.
 
-Lemma loop_fold_n : forall n b, (length b <= n)%nat -> forall s,
-  exists p, loop b s = set_processed p (fold_left step (iacts b) s).
-Proof.
-  induction n as [|n IH]; intros b Hl s.
-  - destruct b; [|cbn in Hl; lia]. exists (processed s). cbn. now rewrite setp_id.
-  - destruct b as [|a rem]; [exists (processed s); cbn; now rewrite setp_id|].
-    cbn [loop iacts]. cbn [length] in Hl.
-    destruct (buf_empty rem) eqn:Eb; [exists (processed s); cbn; now rewrite setp_id|].
-    destruct (extract_action a).
-    1,2: destruct rem as [|d rem']; [discriminate Eb|]; cbn [length] in Hl;
-      (destruct ((l_len d =? 0) && buf_empty rem') eqn:Em;
-       [ apply andb_prop in Em; destruct Em as [E0 _];
-         rewrite (emit_missing_doc a d s E0);
-         destruct (IH rem' ltac:(lia) (step s (AWrite a (Some d)))) as [p Hp];
-         exists p; exact Hp
-       | destruct (emit_write_doc a d s) as [q Hq]; rewrite Hq;
-         destruct (IH rem' ltac:(lia) (set_processed q (step s (AWrite a (Some d))))) as [p Hp];
-         exists p; rewrite Hp; cbn [fold_left]; now rewrite fold_setp, setp_setp ]).
-    + destruct rem as [|d rem']; [discriminate Eb|]. cbn [length] in Hl.
-      destruct (IH rem' ltac:(lia) (emit (set_success false s))) as [p Hp].
-      exists p. exact Hp.
-    + destruct (IH rem ltac:(lia) (emit (set_success false s))) as [p Hp].
-      exists p. exact Hp.
-Qed.
-
-Lemma loop_fold b s : exists p, loop b s = set_processed p (fold_left step (iacts b) s).
-Proof. apply (loop_fold_n (length b)); lia. Qed.
-
-(* ---------- (2) the loop's parse vs the grammar ---------- *)
-
-Lemma tail_case (x : action) (X I : list action) :
-  I = (if ends_with_doc X then X else removelast X) ->
-  (X = [] -> has_doc x = true) ->
-  x :: I = if ends_with_doc (x :: X) then x :: X else removelast (x :: X).
-Proof.
-  intros HI HX. destruct X as [|y Y].
-  - cbn in HI. subst I. cbn. rewrite HX; auto.
-  - subst I.
-    change (ends_with_doc (x :: y :: Y)) with (ends_with_doc (y :: Y)).
-    change (removelast (x :: y :: Y)) with (x :: removelast (y :: Y)).
-    destruct (ends_with_doc (y :: Y)); reflexivity.
-Qed.
-
-Lemma actions_cons_nonnil l ls : actions (l :: ls) <> [].
-Proof. cbn. destruct (extract_action l); destruct ls; discriminate. Qed.
-
-Lemma single_nodoc l : exists x, actions [l] = [x] /\ has_doc x = false.
-Proof.
-  cbn. destruct (extract_action l); eexists; split; reflexivity.
-Qed.
-
-Lemma iacts_cons a rem : iacts (a :: rem) =
-  if buf_empty rem then [] else
-  match extract_action a with
-  | INDEX | CREATE => match rem with [] => [] | d :: rem' => AWrite a (Some d) :: iacts rem' end
-  | UPDATE => match rem with [] => [] | d :: rem' => AUpdate a (Some d) :: iacts rem' end
-  | DELETE => AOther a :: iacts rem
-  end.
-Proof. reflexivity. Qed.
+Lemma body_lines_cons l r : (l_len l =? 0) && buf_empty r = false ->
+  body_lines (l :: r) = l :: body_lines r.
+Proof. intros H. cbn [body_lines]. rewrite H. reflexivity. Qed.
 
 Lemma actions_cons a r : actions (a :: r) =
   match extract_action a with
@@ -147,54 +76,69 @@ Lemma actions_cons a r : actions (a :: r) =
   end.
 Proof. reflexivity. Qed.
 
-Lemma iacts_actions_n : forall n b, (length b <= n)%nat ->
-  iacts b = if ends_with_doc (actions (body_lines b)) then actions (body_lines b)
-            else removelast (actions (body_lines b)).
+Lemma loop_cons a rem s : loop (a :: rem) s =
+  if (l_len a =? 0) && buf_empty rem then s else
+  let s0 := set_oversize false s in
+  match extract_action a with
+  | INDEX | CREATE =>
+    match rem with
+    | [] => emit (set_success false s0)
+    | d :: rem' =>
+      if (l_len d =? 0) && buf_empty rem'
+      then loop rem' (emit (set_success false s0))
+      else loop rem' (emit (write_doc (l_idx a) d s0))
+    end
+  | UPDATE =>
+    match rem with
+    | [] => emit (set_success false s0)
+    | _ :: rem' => loop rem' (emit (set_success false s0))
+    end
+  | DELETE => loop rem (emit (set_success false s0))
+  end.
+Proof. reflexivity. Qed.
+
+Lemma loop_fold_n : forall n b, (length b <= n)%nat -> forall s,
+  exists p, loop b s = set_processed p (fold_left step (actions (body_lines b)) s).
 Proof.
-  induction n as [|n IH]; intros b Hl.
-  - destruct b; [reflexivity|cbn in Hl; lia].
-  - destruct b as [|a rem]; [reflexivity|]. cbn [length] in Hl.
-    destruct rem as [|d rem'].
-    + (* one segment, no newline *)
-      cbn [iacts buf_empty body_lines].
-      destruct (l_len a =? 0); [reflexivity|].
-      destruct (single_nodoc a) as (x & Ex & Hx). rewrite Ex. cbn. rewrite Hx. reflexivity.
-    + destruct rem' as [|e rem''].
-      * (* a \n d *)
-        cbn [iacts buf_empty body_lines].
-        destruct (l_len d =? 0) eqn:E0.
-        { destruct (single_nodoc a) as (x & Ex & Hx). rewrite Ex. cbn. rewrite Hx. reflexivity. }
-        cbn [actions].
-        destruct (extract_action a); cbn; try reflexivity.
-        destruct (extract_action d); reflexivity.
-      * (* at least three segments *)
-        assert (Hbl : body_lines (a :: d :: e :: rem'') = a :: d :: body_lines (e :: rem'')) by reflexivity.
-        rewrite Hbl.
-        assert (Hbe : buf_empty (d :: e :: rem'') = false) by reflexivity.
-        rewrite (iacts_cons a), Hbe, (actions_cons a).
-        cbn [length] in Hl.
-        destruct (extract_action a) eqn:Ea; cbv beta iota.
-        1,2,3: (apply tail_case; [apply IH; cbn [length]; lia | reflexivity]).
-        apply tail_case.
-        -- rewrite (IH (d :: e :: rem'')) by (cbn [length]; lia). reflexivity.
-        -- intros HX. exfalso. exact (actions_cons_nonnil _ _ HX).
+  induction n as [|n IH]; intros b Hl s.
+  - destruct b; [|cbn in Hl; lia]. exists (processed s). destruct s; reflexivity.
+  - destruct b as [|a rem]; [exists (processed s); destruct s; reflexivity|].
+    rewrite loop_cons. cbn [length] in Hl.
+    destruct ((l_len a =? 0) && buf_empty rem) eqn:Eb.
+    { cbn [body_lines]. rewrite Eb. exists (processed s). destruct s; reflexivity. }
+    rewrite (body_lines_cons _ _ Eb), actions_cons. cbv zeta.
+    destruct (extract_action a).
+    1,2: (destruct rem as [|d rem'];
+      [ exists (processed s); destruct s; reflexivity
+      | cbn [length] in Hl;
+        destruct ((l_len d =? 0) && buf_empty rem') eqn:Em;
+        [ cbn [body_lines]; rewrite Em;
+          apply andb_prop in Em; destruct Em as [_ Er];
+          destruct (IH rem' ltac:(lia) (emit (set_success false (set_oversize false s)))) as [p Hp];
+          exists p; rewrite Hp, (buf_empty_lines _ Er); reflexivity
+        | rewrite (body_lines_cons _ _ Em);
+          destruct (emit_write_doc a d s) as [q Hq]; rewrite Hq;
+          destruct (IH rem' ltac:(lia) (set_processed q (step s (AWrite a (Some d))))) as [p Hp];
+          exists p; rewrite Hp; cbn [fold_left]; now rewrite fold_setp, setp_setp ] ]).
+    + destruct rem as [|d rem'];
+        [ exists (processed s); destruct s; reflexivity |].
+      cbn [length] in Hl.
+      destruct ((l_len d =? 0) && buf_empty rem') eqn:Em.
+      * cbn [body_lines]. rewrite Em.
+        apply andb_prop in Em. destruct Em as [_ Er].
+        destruct (IH rem' ltac:(lia) (emit (set_success false (set_oversize false s)))) as [p Hp].
+        exists p. rewrite Hp, (buf_empty_lines _ Er). reflexivity.
+      * rewrite (body_lines_cons _ _ Em).
+        destruct (IH rem' ltac:(lia) (emit (set_success false (set_oversize false s)))) as [p Hp].
+        exists p. exact Hp.
+    + destruct (IH rem ltac:(lia) (emit (set_success false (set_oversize false s)))) as [p Hp].
+      exists p. exact Hp.
 Qed.
 
-Lemma iacts_actions b :
-  iacts b = if ends_with_doc (actions (body_lines b)) then actions (body_lines b)
-            else removelast (actions (body_lines b)).
-Proof. apply (iacts_actions_n (length b)); lia. Qed.
+Lemma loop_fold b s : exists p, loop b s = set_processed p (fold_left step (actions (body_lines b)) s).
+Proof. apply (loop_fold_n (length b)); lia. Qed.
 
-(* ---------- (3) closed forms of the fold ---------- *)
-
-(* the status the code gives each action, [ov] = maxRecordSizeExceeded so far *)
-Fixpoint statuses (ov : bool) (acts : list action) : list N :=
-  match acts with
-  | [] => []
-  | a :: r =>
-    let ov' := ov || act_oversize a in
-    (if act_ok a then 201 else if ov' then 413 else 400) :: statuses ov' r
-  end.
+(* ---------- (2) closed forms of the fold ---------- *)
 
 Definition accepted (acts : list action) : list (N * N) :=
   flat_map act_doc (filter act_ok acts).
@@ -203,152 +147,78 @@ Lemma leb_ltb x y : (y <=? x) = negb (x <? y).
 Proof. apply N.leb_antisym. Qed.
 
 Lemma step_spec s a :
-  let ov' := oversize s || act_oversize a in
-  let stt := if act_ok a then 201 else if ov' then 413 else 400 in
-  items (step s a) = items s ++ [stt] /\
+  items (step s a) = items s ++ [expected_status a] /\
   ples (step s a) = ples s ++ (if act_ok a then act_doc a else []) /\
-  oversize (step s a) = ov' /\
-  overall (step s a) = overall s || (stt =? 400) /\
-  atleast (step s a) = atleast s || (stt =? 201).
+  overall (step s a) = overall s || negb (act_ok a) /\
+  atleast (step s a) = atleast s || act_ok a.
 Proof.
   destruct s as [su ov oa al pr it pl].
-  destruct a as [l [d|]|l [d|]|l]; unfold step, emit, act_ok, act_oversize, act_doc, doc_ok, get_new_ple;
+  destruct a as [l [d|]|l [d|]|l]; unfold step, emit, expected_status, act_ok, act_oversize, act_doc, doc_ok, get_new_ple;
     cbn [success oversize overall atleast items ples set_success set_oversize set_overall set_atleast push_item push_ple negb].
-  2,3,4,5: rewrite Bool.orb_false_r; destruct ov; cbn; rewrite ?app_nil_r, ?Bool.orb_true_r, ?Bool.orb_false_r; auto.
+  2,3,4,5: cbn; rewrite ?app_nil_r, ?Bool.orb_true_r, ?Bool.orb_false_r; auto.
   rewrite leb_ltb.
-  destruct (l_len d <? MAX_RECORD_SIZE); destruct (l_len d =? 0); destruct (l_parses d); destruct ov;
+  destruct (l_len d <? MAX_RECORD_SIZE); destruct (l_len d =? 0); destruct (l_parses d);
     cbn; rewrite ?app_nil_r, ?Bool.orb_true_r, ?Bool.orb_false_r; auto.
 Qed.
 
 Lemma fold_spec acts : forall s,
   let s' := fold_left step acts s in
-  items s' = items s ++ statuses (oversize s) acts /\
+  items s' = items s ++ map expected_status acts /\
   ples s' = ples s ++ accepted acts /\
-  overall s' = overall s || existsb (N.eqb 400) (statuses (oversize s) acts) /\
-  atleast s' = atleast s || existsb (N.eqb 201) (statuses (oversize s) acts).
+  overall s' = overall s || existsb (fun a => negb (act_ok a)) acts /\
+  atleast s' = atleast s || existsb act_ok acts.
 Proof.
   induction acts as [|a acts IH]; intros s.
   - cbn. rewrite !app_nil_r, !Bool.orb_false_r. auto.
   - cbn [fold_left]. destruct (IH (step s a)) as (I1 & I2 & I3 & I4).
-    destruct (step_spec s a) as (S1 & S2 & S3 & S4 & S5).
-    cbv zeta. rewrite I1, I2, I3, I4, S1, S2, S3, S4, S5.
-    cbn [statuses existsb]. unfold accepted. cbn [filter].
+    destruct (step_spec s a) as (S1 & S2 & S3 & S4).
+    cbv zeta. rewrite I1, I2, I3, I4, S1, S2, S3, S4.
+    cbn [map existsb]. unfold accepted. cbn [filter].
     rewrite <- !app_assoc. cbn [app].
     repeat split.
     + destruct (act_ok a); cbn [flat_map app]; rewrite <- ?app_assoc; reflexivity.
-    + rewrite Bool.orb_assoc. f_equal. f_equal. apply N.eqb_sym.
-    + rewrite Bool.orb_assoc. f_equal. f_equal. apply N.eqb_sym.
+    + now rewrite Bool.orb_assoc.
+    + now rewrite Bool.orb_assoc.
 Qed.
 
 Section Handle.
 Variable store_ok : N -> bool.
 Variable b : list line.
+Let A := actions (body_lines b).
 
-Lemma handle_items : r_items (handle store_ok b) = statuses false (iacts b).
+Lemma handle_items : r_items (handle store_ok b) = map expected_status A.
 Proof.
   unfold handle. destruct (loop_fold b init) as [p Hp]. rewrite Hp. cbn [r_items].
-  destruct (fold_spec (iacts b) init) as (I1 & _).
-  destruct (fold_left step (iacts b) init) eqn:E. cbn in *. exact I1.
+  destruct (fold_spec A init) as (I1 & _). fold A.
+  destruct (fold_left step A init) eqn:E. cbn in *. exact I1.
 Qed.
 
-Lemma handle_errors : r_errors (handle store_ok b) = existsb (N.eqb 400) (statuses false (iacts b)).
+Lemma handle_errors : r_errors (handle store_ok b) = existsb (fun a => negb (act_ok a)) A.
 Proof.
   unfold handle. destruct (loop_fold b init) as [p Hp]. rewrite Hp. cbn [r_errors].
-  destruct (fold_spec (iacts b) init) as (_ & _ & I3 & _).
-  destruct (fold_left step (iacts b) init) eqn:E. cbn in *. exact I3.
+  destruct (fold_spec A init) as (_ & _ & I3 & _). fold A.
+  destruct (fold_left step A init) eqn:E. cbn in *. exact I3.
 Qed.
 
-Lemma handle_allfailed : r_allfailed (handle store_ok b) = negb (existsb (N.eqb 201) (statuses false (iacts b))).
+Lemma handle_allfailed : r_allfailed (handle store_ok b) = negb (existsb act_ok A).
 Proof.
   unfold handle. destruct (loop_fold b init) as [p Hp]. rewrite Hp. cbn [r_allfailed].
-  destruct (fold_spec (iacts b) init) as (_ & _ & _ & I4).
-  destruct (fold_left step (iacts b) init) eqn:E. cbn in *. now rewrite I4.
+  destruct (fold_spec A init) as (_ & _ & _ & I4). fold A.
+  destruct (fold_left step A init) eqn:E. cbn in *. now rewrite I4.
 Qed.
 
-Lemma handle_stored : r_stored (handle store_ok b) = filter (fun p => store_ok (fst p)) (accepted (iacts b)).
+Lemma handle_stored : r_stored (handle store_ok b) = filter (fun p => store_ok (fst p)) (accepted A).
 Proof.
   unfold handle. destruct (loop_fold b init) as [p Hp]. rewrite Hp. cbn [r_stored].
-  destruct (fold_spec (iacts b) init) as (_ & I2 & _).
-  destruct (fold_left step (iacts b) init) eqn:E. cbn in *. now rewrite I2.
+  destruct (fold_spec A init) as (_ & I2 & _). fold A.
+  destruct (fold_left step A init) eqn:E. cbn in *. now rewrite I2.
 Qed.
 End Handle.
 
-(* ---------- list facts ---------- *)
+Lemma expected_created a : created (expected_status a) = act_ok a.
+Proof. unfold expected_status, created. destruct (act_ok a); auto. destruct (act_oversize a); reflexivity. Qed.
 
-Lemma statuses_length acts : forall ov, length (statuses ov acts) = length acts.
-Proof. induction acts; intros ov; cbn; auto. Qed.
-
-Lemma removelast_len {A} (l : list A) : l <> [] -> S (length (removelast l)) = length l.
-Proof.
-  intros H. destruct (exists_last H) as (l' & x & E). subst l.
-  rewrite removelast_last, app_length. cbn. lia.
-Qed.
-
-Lemma removelast_nth {A} (l : list A) : forall i x,
-  nth_error (removelast l) i = Some x -> nth_error l i = Some x.
-Proof.
-  induction l as [|y l IH]; intros i x H; [destruct i; discriminate|].
-  destruct l as [|z l]; [destruct i; discriminate|].
-  change (removelast (y :: z :: l)) with (y :: removelast (z :: l)) in H.
-  destruct i; cbn in *; auto.
-Qed.
-
-Lemma ends_false_filter acts : ends_with_doc acts = false ->
-  filter act_ok (removelast acts) = filter act_ok acts.
-Proof.
-  induction acts as [|a acts IH]; intros H; [discriminate|].
-  destruct acts as [|a' acts].
-  - cbn in H. cbn. destruct a as [l [d|]|l [d|]|l]; cbn in *; try discriminate; reflexivity.
-  - change (removelast (a :: a' :: acts)) with (a :: removelast (a' :: acts)).
-    cbn [filter]. rewrite IH; auto.
-Qed.
-
-Lemma forallb_removelast {A} (f : A -> bool) l : forallb f l = true -> forallb f (removelast l) = true.
-Proof.
-  induction l as [|x l IH]; intros H; auto.
-  destruct l as [|y l]; auto.
-  change (removelast (x :: y :: l)) with (x :: removelast (y :: l)).
-  cbn [forallb] in *. apply andb_prop in H. destruct H as [H1 H2].
-  rewrite H1. cbn. apply IH. exact H2.
-Qed.
-
-Lemma statuses_nth acts : forall ov i st, nth_error (statuses ov acts) i = Some st ->
-  exists a, nth_error acts i = Some a /\ created st = act_ok a.
-Proof.
-  induction acts as [|a acts IH]; intros ov i st H; [destruct i; discriminate|].
-  destruct i; cbn in H.
-  - exists a. split; auto. inversion H. unfold created.
-    destruct (act_ok a); auto. destruct (ov || act_oversize a); reflexivity.
-  - apply IH in H. exact H.
-Qed.
-
-Lemma statuses_clean acts : no_oversize acts = true ->
-  statuses false acts = map expected_status acts.
-Proof.
-  induction acts as [|a acts IH]; intros H; auto.
-  cbn [no_oversize forallb] in H. apply andb_prop in H. destruct H as [H1 H2].
-  apply Bool.negb_true_iff in H1.
-  cbn [statuses map]. rewrite H1. cbn [orb]. unfold expected_status at 1. rewrite H1.
-  f_equal. apply IH. exact H2.
-Qed.
-
-(* the item list the code produces, relative to the grammar's actions *)
-Definition itemised (A : list action) : list action :=
-  if ends_with_doc A then A else removelast A.
-
-Lemma itemised_nth A i a : nth_error (itemised A) i = Some a -> nth_error A i = Some a.
-Proof. unfold itemised. destruct (ends_with_doc A); auto. apply removelast_nth. Qed.
-
-Lemma itemised_no_oversize A : no_oversize A = true -> no_oversize (itemised A) = true.
-Proof. unfold itemised. destruct (ends_with_doc A); auto. apply forallb_removelast. Qed.
-
-Lemma itemised_accepted A : accepted (itemised A) = accepted A.
-Proof.
-  unfold itemised, accepted. destruct (ends_with_doc A) eqn:E; auto.
-  now rewrite ends_false_filter.
-Qed.
-
-(* ---------- (4) the property theorems ---------- *)
+(* ---------- (3) the property theorems ---------- *)
 
 Section Props.
 Variable store_ok : N -> bool.
@@ -356,59 +226,28 @@ Variable b : list line.
 Let A := actions (body_lines b).
 Let r := handle store_ok b.
 
-Lemma items_eq : r_items r = statuses false (itemised A).
-Proof. unfold r, A, itemised. rewrite handle_items, iacts_actions. reflexivity. Qed.
+(* the items are, in request order, what each action deserves on its own *)
+Theorem items_are_expected : r_items r = map expected_status A.
+Proof. apply handle_items. Qed.
 
-(* one item per action, exactly when the body does not end with a document-less action *)
-Theorem one_item_per_action_exact :
-  length (r_items r) = length A <-> ends_with_doc A = true.
+Theorem one_item_per_action : length (r_items r) = length A.
+Proof. rewrite items_are_expected. apply map_length. Qed.
+
+Theorem failure_is_local : forall i a st,
+  nth_error A i = Some a -> nth_error (r_items r) i = Some st -> st = expected_status a.
 Proof.
-  rewrite items_eq, statuses_length. unfold itemised.
-  destruct (ends_with_doc A) eqn:E.
-  - split; auto.
-  - split; [|discriminate]. intros H.
-    assert (A <> []) by (intros Z; rewrite Z in E; discriminate).
-    pose proof (removelast_len A H0). lia.
+  intros i a st Ha Hs. rewrite items_are_expected, nth_error_map, Ha in Hs.
+  cbn in Hs. now inversion Hs.
 Qed.
 
-Theorem one_item_per_action_guarded :
-  ends_with_doc A = true -> length (r_items r) = length A.
-Proof. apply one_item_per_action_exact. Qed.
-
-(* without the guard exactly the last action has no item *)
-Theorem trailing_action_dropped :
-  ends_with_doc A = false -> S (length (r_items r)) = length A.
-Proof.
-  intros E. rewrite items_eq, statuses_length. unfold itemised. rewrite E.
-  apply removelast_len. intros Z; rewrite Z in E; discriminate.
-Qed.
-
-(* an item says "created" iff its own action is a well-formed write — for every body *)
 Theorem success_is_local : forall i a st,
-  nth_error A i = Some a -> nth_error (r_items r) i = Some st ->
-  created st = act_ok a.
+  nth_error A i = Some a -> nth_error (r_items r) i = Some st -> created st = act_ok a.
 Proof.
-  intros i a st Ha Hs. rewrite items_eq in Hs.
-  apply statuses_nth in Hs. destruct Hs as (a' & Ha' & E).
-  apply itemised_nth in Ha'. rewrite Ha in Ha'. inversion Ha'. subst a'. exact E.
+  intros i a st Ha Hs. rewrite (failure_is_local i a st Ha Hs). apply expected_created.
 Qed.
 
-(* exact status of every item is a function of its own action, when nothing is oversize *)
-Theorem failure_is_local_guarded : no_oversize A = true ->
-  forall i a st, nth_error A i = Some a -> nth_error (r_items r) i = Some st ->
-  st = expected_status a.
-Proof.
-  intros G i a st Ha Hs. rewrite items_eq in Hs.
-  rewrite statuses_clean in Hs by (apply itemised_no_oversize; exact G).
-  rewrite nth_error_map in Hs.
-  destruct (nth_error (itemised A) i) eqn:E; [|discriminate].
-  apply itemised_nth in E. rewrite Ha in E. inversion E. subst. cbn in Hs. now inversion Hs.
-Qed.
-
-(* the store holds exactly the documents of the well-formed writes whose index accepts them *)
-Theorem stored_eq :
-  r_stored r = filter (fun p => store_ok (fst p)) (accepted A).
-Proof. unfold r, A. rewrite handle_stored, iacts_actions. fold (itemised (actions (body_lines b))). now rewrite itemised_accepted. Qed.
+Theorem stored_eq : r_stored r = filter (fun p => store_ok (fst p)) (accepted A).
+Proof. apply handle_stored. Qed.
 
 Lemma filter_all_ok acts : stores_ok store_ok acts = true ->
   filter (fun p => store_ok (fst p)) (accepted acts) = accepted acts.
@@ -422,51 +261,34 @@ Proof.
   rewrite H1. reflexivity.
 Qed.
 
-Theorem stored_are_created_docs : stores_ok store_ok A = true ->
-  r_stored r = accepted A.
+Theorem stored_are_created_docs : stores_ok store_ok A = true -> r_stored r = accepted A.
 Proof. intros G. rewrite stored_eq. apply filter_all_ok. exact G. Qed.
 
-(* errors flag: exact meaning for every body *)
-Theorem errors_flag_iff_some_400 : r_errors r = true <-> In 400 (r_items r).
+Theorem errors_flag_iff_some_failed :
+  r_errors r = true <-> exists st, In st (r_items r) /\ st <> 201.
 Proof.
-  unfold r. rewrite handle_errors, handle_items.
+  unfold r. rewrite handle_errors, handle_items. fold A.
   rewrite existsb_exists. split.
-  - intros (x & Hx & E). apply N.eqb_eq in E. subst x. exact Hx.
-  - intros H. exists 400. split; auto.
-Qed.
-
-Lemma clean_400 acts : no_oversize acts = true ->
-  existsb (N.eqb 400) (statuses false acts) = existsb (fun st => negb (created st)) (statuses false acts).
-Proof.
-  intros G. rewrite statuses_clean by exact G.
-  induction acts as [|a acts IH]; auto.
-  cbn [no_oversize forallb] in G. apply andb_prop in G. destruct G as [G1 G2].
-  apply Bool.negb_true_iff in G1.
-  cbn [map existsb]. rewrite IH by exact G2. f_equal.
-  unfold expected_status, created. rewrite G1. destruct (act_ok a); reflexivity.
-Qed.
-
-Theorem errors_flag_iff_some_failed_guarded : no_oversize A = true ->
-  (r_errors r = true <-> exists st, In st (r_items r) /\ st <> 201).
-Proof.
-  intros G.
-  assert (E : r_errors r = existsb (fun st => negb (created st)) (r_items r)).
-  { rewrite items_eq. unfold r. rewrite handle_errors, iacts_actions. fold (itemised A).
-    apply clean_400. apply itemised_no_oversize. exact G. }
-  rewrite E, existsb_exists. unfold created. split.
-  - intros (x & Hx & Hn). exists x. split; auto. apply Bool.negb_true_iff, N.eqb_neq in Hn. exact Hn.
-  - intros (x & Hx & Hn). exists x. split; auto. apply Bool.negb_true_iff, N.eqb_neq. exact Hn.
+  - intros (a & Ha & Hn). exists (expected_status a). split; [apply in_map; exact Ha|].
+    intros E. apply Bool.negb_true_iff in Hn. rewrite <- expected_created in Hn.
+    unfold created in Hn. rewrite E in Hn. discriminate.
+  - intros (st & Hs & Hn). apply in_map_iff in Hs. destruct Hs as (a & Ea & Ha).
+    exists a. split; auto. apply Bool.negb_true_iff. rewrite <- expected_created.
+    unfold created. apply N.eqb_neq. congruence.
 Qed.
 
 Theorem all_failed_iff_no_created : r_allfailed r = true <-> ~ In 201 (r_items r).
 Proof.
-  unfold r. rewrite handle_allfailed, handle_items, Bool.negb_true_iff.
+  unfold r. rewrite handle_allfailed, handle_items, Bool.negb_true_iff. fold A.
   split.
-  - intros H Hin. assert (existsb (N.eqb 201) (statuses false (iacts b)) = true).
-    { apply existsb_exists. exists 201. split; auto. }
+  - intros H Hin. apply in_map_iff in Hin. destruct Hin as (a & Ea & Ha).
+    assert (existsb act_ok A = true).
+    { apply existsb_exists. exists a. split; auto. rewrite <- expected_created. unfold created. rewrite Ea. reflexivity. }
     congruence.
-  - intros H. destruct (existsb (N.eqb 201) (statuses false (iacts b))) eqn:E; auto.
-    apply existsb_exists in E. destruct E as (x & Hx & Ex). apply N.eqb_eq in Ex. subst x. contradiction.
+  - intros H. destruct (existsb act_ok A) eqn:E; auto.
+    apply existsb_exists in E. destruct E as (a & Ha & Ok). exfalso. apply H.
+    apply in_map_iff. exists a. split; auto.
+    rewrite <- expected_created in Ok. unfold created in Ok. now apply N.eqb_eq in Ok.
 Qed.
 End Props.
 
@@ -561,7 +383,7 @@ Proof.
 Qed.
 End Once.
 
-(* ---------- witnesses of the refuted full statements (checked by vm_compute) ---------- *)
+(* ---------- witnesses (checked by vm_compute) ---------- *)
 
 Definition ln_index (idx : N) : line := mkLine 24 KIndex idx false 0.
 Definition ln_delete : line := mkLine 25 KDelete 1 false 0.
@@ -579,23 +401,11 @@ Definition w_errors : list line := [ln_index 1; ln_big 1; empty_line].
 Definition w_sticky : list line := [ln_index 1; ln_big 1; ln_index 1; ln_bad; ln_index 1; ln_doc 3; empty_line].
 (* index+valid into an index whose store call fails *)
 Definition w_store : list line := [ln_index 1; ln_doc 1; empty_line].
+(* a body that exercises every branch, ending with a lone action and no final newline *)
+Definition w_good : list line :=
+  [ln_index 1; ln_doc 1; ln_delete; ln_index 2; ln_bad; ln_index 2; ln_big 5; ln_index 2; ln_doc 2; ln_delete].
 
-Theorem one_item_per_action_refuted : exists b,
-  length (r_items (handle all_ok b)) <> length (actions (body_lines b)).
-Proof. exists w_trailing. vm_compute. discriminate. Qed.
-
-Theorem errors_flag_iff_some_failed_refuted : exists b,
-  r_errors (handle all_ok b) = false /\ exists st, In st (r_items (handle all_ok b)) /\ st <> 201.
-Proof. exists w_errors. vm_compute. split; [reflexivity|]. exists 413. split; [now left|discriminate]. Qed.
-
-Theorem failure_is_local_refuted : exists b i a st,
-  nth_error (actions (body_lines b)) i = Some a /\
-  nth_error (r_items (handle all_ok b)) i = Some st /\ st <> expected_status a.
-Proof.
-  exists w_sticky, 1%nat, (AWrite (ln_index 1) (Some ln_bad)), 413.
-  vm_compute. repeat split; discriminate.
-Qed.
-
+(* still open: a failing store call after the statuses were assigned *)
 Theorem created_iff_stored_refuted : exists store_ok b i a k,
   nth_error (actions (body_lines b)) i = Some a /\
   nth_error (r_items (handle store_ok b)) i = Some 201 /\
@@ -605,6 +415,28 @@ Proof.
   vm_compute. repeat split. now left.
 Qed.
 
-(* the guards are satisfiable by bodies that exercise every branch *)
-Definition w_good : list line :=
-  [ln_index 1; ln_doc 1; ln_delete; ln_index 2; ln_bad; ln_index 2; ln_doc 2].
+(* ---------- (4) the code before the fix violated three clauses ---------- *)
+
+Theorem prefix_one_item_per_action_refuted : exists b,
+  length (r_items (handle_prefix all_ok b)) <> length (actions (body_lines b)).
+Proof. exists w_trailing. vm_compute. discriminate. Qed.
+
+Theorem prefix_errors_flag_iff_some_failed_refuted : exists b,
+  r_errors (handle_prefix all_ok b) = false /\
+  exists st, In st (r_items (handle_prefix all_ok b)) /\ st <> 201.
+Proof. exists w_errors. vm_compute. split; [reflexivity|]. exists 413. split; [now left|discriminate]. Qed.
+
+Theorem prefix_failure_is_local_refuted : exists b i a st,
+  nth_error (actions (body_lines b)) i = Some a /\
+  nth_error (r_items (handle_prefix all_ok b)) i = Some st /\ st <> expected_status a.
+Proof.
+  exists w_sticky, 1%nat, (AWrite (ln_index 1) (Some ln_bad)), 413.
+  vm_compute. repeat split; discriminate.
+Qed.
+
+(* the same three bodies through the fixed code *)
+Example fixed_on_witnesses :
+  r_items (handle all_ok w_trailing) = [400] /\
+  (r_items (handle all_ok w_errors) = [413] /\ r_errors (handle all_ok w_errors) = true) /\
+  r_items (handle all_ok w_sticky) = [413; 400; 201].
+Proof. vm_compute. repeat split; reflexivity. Qed.
